@@ -966,4 +966,104 @@ theorem quiet_apiRun {tid : Nat} (ops : List ApiOp) {s s' : St} (hq : Quiet s) (
     | none => simp only [ha] at hr; cases hr
     | some s1 => simp only [ha] at hr; exact ih (quiet_apiStep hq ha) hr
 
+
+/-! ### the content seen through a handle changes only by a write through that very handle -/
+
+theorem content_stable {s s' : St} {tid : Nat} {a : Act} {v b : Nat} {blk : Block} (h : Inv s)
+    (hs : astep s tid a = some s') (hv : v < s.n) (hsl : s.slots v = .blk b) (hb : s.heap b = some blk)
+    (hnw : ∀ t b', s.pc tid = .writing t b' → t ≠ v) :
+    ∃ blk', s'.heap b = some blk' ∧ blk'.tag = blk.tag ∧ blk'.val = blk.val ∧ blk'.cap = blk.cap := by
+  have same : ∀ {x : St}, x.heap = s.heap → ∃ blk', x.heap b = some blk' ∧ blk'.tag = blk.tag ∧ blk'.val = blk.val ∧ blk'.cap = blk.cap := by
+    intro x hx; rw [hx]; exact ⟨blk, hb, rfl, rfl, rfl⟩
+  have refupd : ∀ (b0 : Nat) (blk0 : Block) (r : Nat), s.heap b0 = some blk0 →
+      ∃ blk', upd s.heap b0 (some { blk0 with ref := r }) b = some blk' ∧ blk'.tag = blk.tag ∧ blk'.val = blk.val ∧ blk'.cap = blk.cap := by
+    intro b0 blk0 r h0
+    by_cases e : b = b0
+    · subst e; rw [hb] at h0; injection h0 with h0; subst h0
+      exact ⟨_, upd_same _ _ _, rfl, rfl, rfl⟩
+    · rw [upd_other _ _ _ _ e]; exact ⟨blk, hb, rfl, rfl, rfl⟩
+  cases a with
+  | inc t src =>
+    simp only [astep] at hs
+    split at hs
+    case isFalse => cases hs
+    case isTrue hc =>
+      cases hsrc : s.slots src with
+      | none => simp only [hsrc] at hs; cases hs; exact same rfl
+      | inl tag val => simp only [hsrc] at hs; cases hs; exact same rfl
+      | blk b0 =>
+        cases h0 : s.heap b0 with
+        | none => simp only [hsrc, h0] at hs; cases hs; exact same rfl
+        | some blk0 => simp only [hsrc, h0] at hs; cases hs; exact refupd b0 blk0 _ h0
+  | dec t =>
+    simp only [astep] at hs
+    split at hs
+    case isFalse => cases hs
+    case isTrue hc =>
+      cases hst : s.slots t with
+      | none => simp only [hst] at hs; cases hs; exact same rfl
+      | inl tag val => simp only [hst] at hs; cases hs; exact same rfl
+      | blk b0 =>
+        cases h0 : s.heap b0 with
+        | none => simp only [hst, h0] at hs; cases hs; exact same rfl
+        | some blk0 =>
+          simp only [hst, h0] at hs
+          split at hs
+          · cases hs; exact same rfl
+          · cases hs; exact refupd b0 blk0 _ h0
+  | free =>
+    simp only [astep] at hs
+    cases hpc : s.pc tid with
+    | idle => simp only [hpc] at hs; cases hs; exact same rfl
+    | writing t b0 => simp only [hpc] at hs; cases hs
+    | freeing b0 =>
+      obtain ⟨⟨blk0, h0, hz⟩, _⟩ := h.freeing tid b0 hpc
+      simp only [hpc, h0] at hs; cases hs
+      have e : b ≠ b0 := by
+        intro e; subst e
+        have := handles_pos _ _ _ _ hv hsl
+        have := h.cnt b blk0 h0
+        simp only [handles] at this; omega
+      simp only [upd_other _ _ _ _ e]; exact ⟨blk, hb, rfl, rfl, rfl⟩
+  | alloc t tag val cap =>
+    simp only [astep] at hs
+    split at hs
+    case isFalse => cases hs
+    case isTrue hc =>
+      cases hs
+      have e : b ≠ s.next := by
+        intro e; subst e
+        have := (h.fresh s.next (Nat.le_refl _)).1
+        rw [hb] at this; cases this
+      simp only [upd_other _ _ _ _ e]; exact ⟨blk, hb, rfl, rfl, rfl⟩
+  | readRef t ok =>
+    simp only [astep] at hs
+    (repeat' split at hs) <;> first | (cases hs; done) | (cases hs; exact same rfl)
+  | write val =>
+    simp only [astep] at hs
+    cases hpc : s.pc tid with
+    | idle => simp only [hpc] at hs; cases hs; exact same rfl
+    | freeing b0 => simp only [hpc] at hs; cases hs
+    | writing t b0 =>
+      obtain ⟨ht, _, hst, blk0, h0, hr1⟩ := h.writing tid t b0 hpc
+      simp only [hpc, h0] at hs; cases hs
+      have e : b ≠ b0 := by
+        intro e; subst e
+        have := sole_handle s.n s.slots t v b ht hv (Ne.symm (hnw t b hpc)) hst hsl
+        have := h.cnt b blk0 h0
+        simp only [handles] at this; omega
+      simp only [upd_other _ _ _ _ e]; exact ⟨blk, hb, rfl, rfl, rfl⟩
+  | move d t =>
+    simp only [astep] at hs
+    split at hs <;> first | (cases hs; done) | (cases hs; exact same rfl)
+  | swap a c =>
+    simp only [astep] at hs
+    split at hs <;> first | (cases hs; done) | (cases hs; exact same rfl)
+  | setInl d tag val =>
+    simp only [astep] at hs
+    split at hs <;> first | (cases hs; done) | (cases hs; exact same rfl)
+  | give x tid' =>
+    simp only [astep] at hs
+    split at hs <;> first | (cases hs; done) | (cases hs; exact same rfl)
+
 end Nstd.Rc
